@@ -31,7 +31,7 @@ TRUSTED_BASE = [
 	'with hashlib / the sha3 stand-in on every signature)',
 	'/verif/shims stand-ins for cryptography, nacl, sha3, ripemd (the real packages are absent): the Symbol signer/verifier and the '
 	'libsodium calls of the NEM signer/verifier are the stand-ins\' arithmetic',
-	'translators harness/c07.py (ast evaluation) and translate/catsoffsets.py (independent CATS reader)',
+	'translators harness/c07.py (facade constants read off the behaviour of extract_signing_payload on crafted buffers; enum values and curve constants by ast evaluation) and translate/catsoffsets.py (independent CATS reader)',
 ]
 ASSUMPTIONS = [
 	'unforgeability is not proved: "a changed bit fails" is proved for the S half (S_unique) and reduced to a relation on the challenge '
@@ -45,50 +45,48 @@ ASSUMPTIONS = [
 SCHEMAS = 'catbuffer/schemas'
 
 
-def _facade_constants(repo):
-	"""TRANSACTION_HEADER_SIZE / AGGREGATE_HASHED_SIZE evaluated from the text of SymbolFacade.py (no execution):
-	`sum(field[1] for field in [(name, size), ...])` with `X.SIZE` looked up in CryptoTypes.py; plus the literal offset
-	added to the header size in `_is_aggregate_transaction` and the names of the aggregate type constants."""
-	from translate import pyconst
-	base = os.path.join(repo, 'sdk/python/symbolchain')
-	crypto = {}
-	for name in ('Hash256', 'PrivateKey', 'PublicKey', 'SharedKey256', 'Signature'):
-		crypto[name] = pyconst.class_constants(os.path.join(base, 'CryptoTypes.py'), name)
+def _facade_constants(_repo):
+	"""The framing constants of SymbolFacade, obtained from its *behaviour* (so that no particular spelling of the source is
+	assumed): `extract_signing_payload` is given objects whose `serialize()` returns crafted buffers. The header size is what
+	is cut from the front of a buffer of an unknown type; a 16-bit value counts as an aggregate type when, written at some
+	offset behind the header, it makes the payload stop early; that offset and the length kept are the other two constants."""
+	from .common import setup_paths
+	setup_paths()
+	from symbolchain import sc
+	from symbolchain.facade.SymbolFacade import SymbolFacade
 
-	def evaluate(node):
-		if isinstance(node, ast.Attribute) and isinstance(node.value, ast.Name) and node.value.id in crypto:
-			return crypto[node.value.id][node.attr]
-		return pyconst.const_eval(node)
+	facade = SymbolFacade('testnet')
+	seed_size = len(facade.network.generation_hash_seed.bytes)
 
-	tree = pyconst.parse(os.path.join(base, 'facade/SymbolFacade.py'))
-	result = {'fields': {}}
-	for node in tree.body:
-		if isinstance(node, ast.Assign) and isinstance(node.targets[0], ast.Name) and node.targets[0].id in (
-				'TRANSACTION_HEADER_SIZE', 'AGGREGATE_HASHED_SIZE'):
-			call = node.value
-			if not (isinstance(call, ast.Call) and 'sum' == getattr(call.func, 'id', None) and isinstance(call.args[0], ast.GeneratorExp)):
-				raise ValueError(f'{node.targets[0].id}: unexpected shape')
-			generator = call.args[0]
-			element = generator.elt
-			if not (isinstance(element, ast.Subscript) and 1 == pyconst.const_eval(element.slice)):
-				raise ValueError(f'{node.targets[0].id}: unexpected summand')
-			entries = [(pyconst.const_eval(item.elts[0]), evaluate(item.elts[1])) for item in generator.generators[0].iter.elts]
-			result[node.targets[0].id] = sum(size for _, size in entries)
-			result['fields'][node.targets[0].id] = entries
-	facade = next(node for node in tree.body if isinstance(node, ast.ClassDef) and 'SymbolFacade' == node.name)
-	for item in facade.body:
-		if isinstance(item, ast.FunctionDef) and '_is_aggregate_transaction' == item.name:
-			for statement in ast.walk(item):
-				if isinstance(statement, ast.Assign) and 'transaction_type_offset' == getattr(statement.targets[0], 'id', None):
-					if not (isinstance(statement.value, ast.BinOp) and isinstance(statement.value.op, ast.Add)
-							and 'TRANSACTION_HEADER_SIZE' == getattr(statement.value.left, 'id', None)):
-						raise ValueError('transaction_type_offset: unexpected shape')
-					result['type_offset_delta'] = pyconst.const_eval(statement.value.right)
-				if isinstance(statement, ast.Assign) and 'aggregate_types' == getattr(statement.targets[0], 'id', None):
-					names = []
-					for element in statement.value.elts:  # sc.TransactionType.NAME.value
-						names.append(element.value.attr)
-					result['aggregate_type_names'] = names
+	class Crafted:  # pylint: disable=too-few-public-methods
+		def __init__(self, buffer):
+			self.buffer = buffer
+
+		def serialize(self):
+			return self.buffer
+
+	def kept(buffer):
+		return len(facade.extract_signing_payload(Crafted(bytes(buffer)))) - seed_size
+
+	total = 600
+	header = total - kept(bytearray(total))
+	result = {'TRANSACTION_HEADER_SIZE': header, 'aggregate_type_names': []}
+	windows = {}
+	for member in sc.TransactionType:
+		for delta in range(0, 24):
+			buffer = bytearray(total)
+			buffer[header + delta:header + delta + 2] = member.value.to_bytes(2, 'little')
+			size = kept(buffer)
+			if size != total - header:
+				windows.setdefault(delta, {})[member.name] = size
+	if 1 != len(windows):
+		raise ValueError(f'aggregate detection is not tied to one type offset: {sorted(windows)}')
+	delta, members = next(iter(windows.items()))
+	if 1 != len(set(members.values())):
+		raise ValueError(f'aggregate types keep different windows: {members}')
+	result['type_offset_delta'] = delta
+	result['AGGREGATE_HASHED_SIZE'] = next(iter(members.values()))
+	result['aggregate_type_names'] = sorted(members)
 	return result
 
 
